@@ -67,8 +67,8 @@ Definition spec_check (c : case) : option bool :=
       match sp_mode al (unbs mr) with
       | None => Some (c_err c && rows_eqb out rs)
       | Some mode =>
-          (* reference protection without a reference row is outside the statement *)
-          if noref && Nat.eqb (length refseq) 0 then None else
+          (* reference protection without a reference row protects nothing *)
+          let noref := noref && negb (Nat.eqb (length refseq) 0) in
           if (start <? 0)%Z || (Z.of_nat L <? start)%Z then Some (c_err c && rows_eqb out rs) else
           match (if noref then get_seq refseq rs else Some []) with
           | None => Some (c_err c && rows_eqb out rs)
